@@ -131,6 +131,10 @@ Theorem C16_iterate_message : forall F a a' v addr,
   avmessage F addr a' (Zlength a') = message_of addr v.
 Proof. exact law_compress_iter_msg. Qed.
 
+(* a slot list stands for at most one list of values *)
+Theorem C16_denote_functional : forall F a v v', denote F a v -> denote F a v' -> v = v'.
+Proof. exact denote_functional. Qed.
+
 (* the hypotheses are satisfiable: one list of 8 values (range with delta,
    boolean array, repeated string, repeated array) written in two ways *)
 Theorem C16_nonvacuous : forall F,
